@@ -74,6 +74,11 @@ def refStep (d : Dialect) (m : RMap Val) : Op → Ret × RMap Val
     | some v => (.opt (some (.item v)), put m k (some (.int n)))
     | none => (.opt none, m)
   | .entkey k => (.bool (contains m k), m)
+  -- `InlineTable::get_or_insert`: the ordered map's `orInsert`
+  | .goi k n =>
+    match d with
+    | .inline => (.slot (.item (orInsert m k (.int n)).2), (orInsert m k (.int n)).1)
+    | _ => (.na, m)
   | .idx k =>
     match get m k with
     | some v => (.slot (.item v), m)
@@ -300,6 +305,12 @@ theorem step_refines (d : Dialect) (m : Items) (op : Op) :
     cases h : imGet m k with
     | none => rfl
     | some s => cases s <;> cases d <;> simp [repaired, Slot.isNone]
+  | goi k n =>
+    cases d
+    case inline =>
+      simp only [refStep, step, goiStep_eq_orInsertStep repaired m k n rfl]
+      exact orInsert_refines .inline m k n
+    all_goals simp [refStep, step]
   | idx k =>
     simp only [refStep, step]
     rw [← optSlot_get_abs]
@@ -497,6 +508,9 @@ theorem step_noPh (fx : Fix) (d : Dialect) (m : Items) (h : NoPh m) (op : Op) :
     | some s => cases s with
       | placeholder => exact absurd hg this
       | item v => rfl
+  | goi k n =>
+    simp only [step]
+    rw [goiStep_of_ne fx m k n (imGet_noPh m h k)]
   | _ => rfl
 
 theorem noPh_set (m : Items) (h : NoPh m) (k : Nat) (v : Val) : NoPh (imSet m k (.item v)) := by
@@ -579,6 +593,12 @@ theorem noPh_step (d : Dialect) (m : Items) (h : NoPh m) (op : Op) (hop : indexe
     | some s => cases s with
       | placeholder => cases d <;> exact h
       | item v => exact h
+  | goi k n =>
+    cases d
+    case inline =>
+      simp only [step, goiStep_eq_orInsertStep repaired m k n rfl]
+      exact noPh_orInsert .inline m h k n
+    all_goals exact h
   | idx k =>
     simp only [step]
     cases vis (imGet m k) <;> exact h
@@ -639,7 +659,7 @@ theorem T16_refine_current_without_indexing (d : Dialect) (ops : List Op)
 example : [Op.ins 0 1, .ins 1 2, .rem 0, .entry 0 3, .retain, .sortby, .extend [2, 5, 0, 6], .iter].all
     (fun op => !indexesMutably op) = true := by decide
 
-/-! ## the code after the four small repairs (`afterPatches`) -/
+/-! ## the code after the five small repairs (`afterPatches`) -/
 
 /-- calls on which `afterPatches` still differs from the reference: asking whether an entry is
     occupied — directly, or by what the `Occupied` / `Vacant` branch does (`remove`, `insert`, `get`,
@@ -681,7 +701,7 @@ theorem run_afterPatches (d : Dialect) (ops : List Op)
     simp only [List.all_cons, Bool.and_eq_true, Bool.not_eq_eq_eq_not, Bool.not_true] at hops
     simp only [run, step_afterPatches d m op hops.1, ih hops.2]
 
-/-- **After the four small repairs**: every history that neither asks whether an entry is occupied nor
+/-- **After the five small repairs**: every history that neither asks whether an entry is occupied nor
     (on an `InlineTable` itself) uses `entry` refines the reference ordered map — placeholders included. -/
 theorem T16_refine_after_patches (d : Dialect) (init : Items) (ops : List Op)
     (hops : ops.all (fun op => !touchesEntryClassification d op)) : Refines afterPatches d init ops := by
@@ -693,7 +713,8 @@ example : [Op.idxmut 0, .ins 1 2, .entry 0 3, .rem 1, .idxmut 1, .iter].all
     (fun op => !touchesEntryClassification .table op) = true := by decide
 
 /-! ## the code as it was found (`asImplemented`): deviations on concrete histories.
-    A, B, C, F were repaired by fix commits in /repo (`current = afterPatches`); D and E are known findings. -/
+    A, B, C, F and the `get_or_insert` panic (`T16_finding_goi_placeholder`, below) were repaired by fix commits in
+    /repo (`current = afterPatches`); D and E are known findings. -/
 
 /-- F6 — `impl TableLike for InlineTable`: after `doc["t"]["a"]` on an empty document the inline table
     has `len() == 0`, but `iter()` yields the placeholder and `get("a")` is `Some(Item::None)`. -/
@@ -1184,6 +1205,95 @@ theorem T16_finding_entry_api_on_placeholder :
     (refRun .inline [] [.idxmut 0, .entins 0 1]).1 = [.slot .placeholder, .opt none] := by
   decide
 
+/-! ## `InlineTable::get_or_insert` (op `goi`; `Table` and `dyn TableLike` have no such method: `na`)
+
+`get_or_insert(k, n)` on a key whose position was reserved by `item[k]` (`Item::None`) used to panic with
+"non-value type in inline table"; /repo now stores the value at the reserved position (`Fix.goi`, part of
+`current`).  The theorems are about `current`, the code as it stands, on every state. -/
+
+theorem step_goi_current (m : Items) (k n : Nat) :
+    step current .inline m (.goi k n) = orInsertStep repaired .inline m k n := by
+  simp only [step]
+  exact goiStep_eq_orInsertStep current m k n rfl
+
+/-- **`InlineTable::get_or_insert(k, n)`, the code as it stands now, from every state — placeholders
+    included**: the call is the reference ordered map's `orInsert`: it returns the value the reference
+    returns (the one already stored, else `n`), the abstraction of the new state is the reference's new state,
+    i.e. it takes exactly the reference's step. -/
+theorem T16_refine_goi (m : Items) (k n : Nat) :
+    (step current .inline m (.goi k n)).1 = .slot (.item (orInsert (abs m) k (.int n)).2) ∧
+    abs (step current .inline m (.goi k n)).2 = (orInsert (abs m) k (.int n)).1 ∧
+    refStep .inline (abs m) (.goi k n) =
+      ((step current .inline m (.goi k n)).1, abs (step current .inline m (.goi k n)).2) := by
+  have hr := orInsert_refines .inline m k n
+  rw [← step_goi_current] at hr
+  have hr' := hr
+  simp only [Prod.mk.injEq] at hr'
+  exact ⟨hr'.1.symm, hr'.2.symm, hr⟩
+
+/-- the three cases of the call, on the concrete state: a value is returned and nothing changes; a placeholder
+    receives `n` at its reserved position (the key order is untouched); an absent key is appended -/
+theorem T16_goi_positions (m : Items) (k n : Nat) :
+    (∀ v, imGet m k = some (.item v) → step current .inline m (.goi k n) = (.slot (.item v), m)) ∧
+    (imGet m k = some .placeholder →
+      step current .inline m (.goi k n) = (.slot (.item (.int n)), imSet m k (.item (.int n))) ∧
+      ((step current .inline m (.goi k n)).2).map (·.1) = m.map (·.1) ∧
+      dGet current .inline (step current .inline m (.goi k n)).2 k = some (.item (.int n))) ∧
+    (imGet m k = none → step current .inline m (.goi k n) = (.slot (.item (.int n)), m ++ [(k, .item (.int n))])) := by
+  refine ⟨fun v h => ?_, fun h => ?_, fun h => ?_⟩
+  · simp only [step, goiStep, h]
+  · have hs : step current .inline m (.goi k n) = (.slot (.item (.int n)), imSet m k (.item (.int n))) := by
+      simp only [step, goiStep, h]; rfl
+    refine ⟨hs, ?_, ?_⟩
+    · rw [hs]; exact keys_imSet m k _
+    · rw [hs]
+      simp only [dGet, imGet_imSet_self m k _ (by simp [h])]
+      rfl
+  · simp only [step, goiStep, h, imPush]
+
+/-- the three hypotheses on real states -/
+example : imGet [(1, Slot.item (.int 0)), (0, .placeholder)] 1 = some (.item (.int 0)) ∧
+    imGet [(1, Slot.item (.int 0)), (0, .placeholder)] 0 = some .placeholder ∧
+    imGet [(1, Slot.item (.int 0)), (0, .placeholder)] 2 = none := by decide
+
+/-- every other dialect, model and reference: no such method, nothing happens -/
+theorem T16_goi_na (fx : Fix) (d : Dialect) (hd : d ≠ .inline) (m : Items) (k n : Nat) :
+    step fx d m (.goi k n) = (.na, m) ∧ refStep d (abs m) (.goi k n) = (.na, abs m) := by
+  cases d <;> first | exact absurd rfl hd | exact ⟨rfl, rfl⟩
+
+/-- whole histories: `goi` is not among the calls excluded by `T16_refine_after_patches`, so every history of the
+    code as it stands that uses `get_or_insert` — also on placeholders — next to every call except the `entry()`
+    family refines the reference -/
+example : [Op.ins 1 0, .idxmut 0, .ins 2 2, .goi 0 1, .goi 1 5, .goi 3 7, .rem 0, .idxmut 0, .goi 0 4, .iter].all
+    (fun op => !touchesEntryClassification .inline op) = true := by decide
+
+/-- **The repaired defect, as it was** (`asImplemented.goi = false`): `item["a"]` then `get_or_insert("a", 1)`
+    panicked where the reference ordered map returns 1 and stores it; the code as it stands returns 1, the key
+    is present afterwards, and the value sits at the position the indexing reserved (`{ b = 0, a = 1, c = 2 }`). -/
+theorem T16_finding_goi_placeholder :
+    (run asImplemented .inline [] [.idxmut 0, .goi 0 1]).1 = [.slot .placeholder, .panic] ∧
+    (refRun .inline [] [.idxmut 0, .goi 0 1]).1 = [.slot .placeholder, .slot (.item (.int 1))] ∧
+    (run current .inline [] [.idxmut 0, .goi 0 1, .get 0, .len]).1 =
+      [.slot .placeholder, .slot (.item (.int 1)), .opt (some (.item (.int 1))), .nat 1] ∧
+    (observe current .inline (run current .inline [] [.ins 1 0, .idxmut 0, .ins 2 2, .goi 0 1]).2).print =
+      "{ b = 0, a = 1, c = 2 }" := by
+  decide
+
+/-- before the repair the call panicked exactly on the keys holding a placeholder (and then stored nothing);
+    on every other key it already did what it does now -/
+theorem T16_finding_goi_panics_iff (m : Items) (k n : Nat) :
+    ((step asImplemented .inline m (.goi k n)).1 = .panic ↔ imGet m k = some .placeholder) ∧
+    (imGet m k = some .placeholder → (step asImplemented .inline m (.goi k n)).2 = m) ∧
+    (imGet m k ≠ some .placeholder → step asImplemented .inline m (.goi k n) = step current .inline m (.goi k n)) := by
+  refine ⟨?_, fun h => ?_, fun h => ?_⟩
+  · simp only [step, goiStep]
+    cases hg : imGet m k with
+    | none => simp
+    | some s => cases s <;> simp [asImplemented]
+  · simp only [step, goiStep, h]; rfl
+  · simp only [step]
+    rw [goiStep_of_ne asImplemented m k n h, goiStep_of_ne current m k n h]
+
 /-! ## keys are unique; `len` counts the keys whose lookup succeeds -/
 
 def KeysNodup (m : Items) : Prop := (m.map (·.1)).Nodup
@@ -1331,6 +1441,15 @@ theorem nodup_step (fx : Fix) (d : Dialect) (m : Items) (h : KeysNodup m) (op : 
       | placeholder =>
         cases d <;> cases fx.entOcc <;> cases fx.inlineEntry <;> first | exact h | exact nodup_set m h k _
       | item v => exact h
+  | goi k n =>
+    cases d
+    case inline =>
+      simp only [step]
+      rcases goiStep_state fx m k n with he | ⟨_, he⟩ | ⟨hg, he⟩
+      · rw [he]; exact h
+      · rw [he]; exact nodup_set m h k _
+      · rw [he]; exact nodup_push m h k _ hg
+    all_goals exact h
   | idx k =>
     simp only [step]
     cases vis (imGet m k) <;> exact h
